@@ -1,6 +1,6 @@
 """C14 - a dry run touches nothing and returns a faithful, self-contained physical plan."""
 import uberjob
-from hypothesis import given
+from hypothesis import given, strategies as st
 
 from checks import common, regcommon
 from vlib import refmodel, runner, world
@@ -49,7 +49,9 @@ def check_case(ctx, case, record=True):
         cfg["fresh"] = ft
     # world A: dry run
     a.reset_log()
-    st_, res = a.run(cfg, output=op.get("output"), dry_run=True)
+    tkind = case.get("transform")
+    xkw = {"transform_physical": a.transform(tkind)} if tkind else {}
+    st_, res = a.run(cfg, output=op.get("output"), dry_run=True, **xkw)
     tag = f"[{regcommon.describe(op)}] "
     if st_ != "ok":
         ctx.violation(case, tag + f"dry run raised {res!r} (cause {getattr(res, '__cause__', None)!r})")
@@ -77,12 +79,13 @@ def check_case(ctx, case, record=True):
     obs_a = refmodel.observed(a)
     # world B: the real run
     b.reset_log()
-    st_b, val_b = b.run(cfg, output=op.get("output"))
+    xkw = {"transform_physical": b.transform(tkind)} if tkind else {}
+    st_b, val_b = b.run(cfg, output=op.get("output"), **xkw)
     obs_b = refmodel.observed(b)
     if record:
         nt = bool(obs_b["writes"]) and bool(obs_b["reads"])
         ctx.case(case, nt, ["writes" if obs_b["writes"] else "no_writes", "reads" if obs_b["reads"] else "no_reads",
-                            "output" if out_node is not None else "no_output"])
+                            "output" if out_node is not None else "no_output", f"transform:{tkind}"])
     if st_b != "ok":
         ctx.violation(case, tag + f"real run failed: {val_b!r}")
     if err_a is not None:
@@ -106,8 +109,10 @@ def check_case(ctx, case, record=True):
 def run_shard(ctx):
     max_nodes, max_ops = (8, 4) if ctx.tier == "quick" else (12, 7)
 
-    @given(regcommon.reg_cases(max_nodes=max_nodes, max_ops=max_ops, det_share=0, disturb_last=True))
-    def test(case):
+    @given(regcommon.reg_cases(max_nodes=max_nodes, max_ops=max_ops, det_share=0, disturb_last=True, alias=True),
+           st.sampled_from([None, None, None, "copy", "copy_add", "copy_wrap", "inplace_add", "inplace_wrap"]))
+    def test(case, tkind):
+        case = dict(case, transform=tkind)
         check_case(ctx, case)
 
     runner.drive(ctx, test, ctx.n(1600, 40000))
